@@ -396,3 +396,4 @@ func VerifC19ParseEval4() { VerifC19ParseEval(4, 1) }
 func VerifC19ParseEval5() { VerifC19ParseEval(5, 2) }
 func VerifC19ParseEval6() { VerifC19ParseEval(6, 2) }
 func VerifC19ParseEval7() { VerifC19ParseEval(7, 2) }
+func VerifC19ParseEval8() { VerifC19ParseEval(8, 2) }
